@@ -90,6 +90,48 @@ theorem C02_same_value_function (n : Node) (raw : Nat) (hs : n.flags.skipped = f
   · simp only [h, hv, h31]
     by_cases hm : raw = missingIvalue n.enc.nbits <;> simp [hm, hx.1]
 
+
+/-- **associated-field column round trip** (whole dataset): every subset gets its own associated
+field back, whether the encoder wrote the constant or the listed form -/
+theorem C02_af_column (w : W) (hI : WInv w) (n0 : Node) (rest : List Node)
+    (haf : ¬ (n0.enc.afNbits = 0 ∨ n0.afW = 0)) (hall : ∀ n ∈ n0 :: rest, n.afW > 0)
+    (hw : n0.afW ≤ 62) (hv : ∀ n ∈ n0 :: rest, n.afBits < 2^n0.afW)
+    (r : R) (hIr : RInv r) (tail : List Bool)
+    (hb : w.bits ++ r.bits = (putAfCompressed w (n0 :: rest)).bits ++ tail)
+    (cb : Node) (col : List Node) (hcaf : cb.enc.afNbits ≠ 0) (hcw : (mkvalNode cb).afW = n0.afW)
+    (g : Range) (hfull : g.from_ ≤ 0) (hn : g.nsub = (n0 :: rest).length) (hcol : (cb :: col).length = g.nsub) :
+    ∃ r', getAfCompressed r (cb :: col) g =
+        some (r', zipWithNodes (fun n v => { mkvalNode n with afBits := v }) (cb :: col) ((n0 :: rest).map (·.afBits))) ∧
+      r'.bits = tail ∧ RInv r' :=
+  af_column_roundtrip w hI n0 rest haf hall hw hv r hIr tail hb cb col hcaf hcw g hfull hn hcol
+
+/-- **character column round trip** (whole dataset, fields of 1..63 octets): whether the encoder
+lists the strings (they differ) or announces one for all (it regards them as equal: same
+significant part, trailing blanks aside), every subset gets back the octets of its own value, blank
+padded to the element width -/
+theorem C02_character_column (w : W) (hI : WInv w) (n0 : Node) (rest : List Node)
+    (h8 : 8 ≤ n0.enc.nbits) (hm8 : n0.enc.nbits % 8 = 0) (h63 : n0.enc.nbits / 8 ≤ 63)
+    (hu : ∀ n ∈ n0 :: rest, n.enc.nbits = n0.enc.nbits)
+    (hz : ∀ c ∈ trimStr (valueString n0) (n0.enc.nbits / 8).toNat, c ≠ 0)
+    (r : R) (hIr : RInv r) (tail : List Bool)
+    (hb : w.bits ++ r.bits = (putCcittCompressed w (n0 :: rest)).bits ++ tail)
+    (cb : Node) (col : List Node) (hcnb : cb.enc.nbits = n0.enc.nbits)
+    (hcu : ∀ n ∈ cb :: col, (mkvalNode n).val = (mkvalNode cb).val ∧ (mkvalNode n).enc.nbits = cb.enc.nbits)
+    (g : Range) (hfull : g.from_ ≤ 0) (hn : g.nsub = (n0 :: rest).length) (hcol : (cb :: col).length = g.nsub) :
+    ∃ r', getCcittCompressed r (cb :: col) g =
+        some (r', zipWithStrs (fun n s => { mkvalNode n with
+            val := (mkvalNode cb).val.setString (some s) (cb.enc.nbits / 8).toNat })
+          (cb :: col) ((n0 :: rest).map (fun n => (paddedString n).map (· % 256)))) ∧
+      r'.bits = tail ∧ RInv r' :=
+  ccitt_column_roundtrip w hI n0 rest h8 hm8 h63 hu hz r hIr tail hb cb col hcnb hcu g hfull hn hcol
+
+/-- values the encoder treats as one are written as the same octets: nothing is lost by the
+constant form -/
+theorem C02_equal_strings_same_octets (a b : List Nat) (enclen : Nat) (hz : ∀ c ∈ trimStr a enclen, c ≠ 0)
+    (h : strDiffers a b enclen = false) :
+    a.take enclen ++ List.replicate (enclen - a.length) 32 = b.take enclen ++ List.replicate (enclen - b.length) 32 :=
+  padded_eq_of_not_differs a b enclen hz h
+
 /-! ### Non-vacuity -/
 
 def exNode (v : Int) : Node :=
@@ -102,5 +144,6 @@ example : encNumCol 16 ([exNode 300, exNode (-1), exNode 7].map value2bits) = (7
 example : WInv (W.new 0) := WInv_new 0
 example : (⟨3, 2, 3⟩ : Range).OK := Or.inr (by decide)
 example : compressible [[exNode 1], [exNode 2, exNode 3]] = false := by decide +kernel
+example : strDiffers [76, 73, 78, 90] [76, 73, 78, 90, 32, 32] 8 = false ∧ strDiffers [76, 73, 78, 90] [76, 73, 78, 90, 32, 72] 8 = true := by decide
 
 end Bufr.C02
